@@ -587,10 +587,23 @@ async def op_wait(env, ctx, step):
         env.on_wait_end(ctx, step, notif)
 
 
+async def prepared(env, step, make):
+    """the awaitable of an operation may be made some time before it is awaited (as in
+    `scope.do(flag.set(), after=d)`): nothing happens until it is awaited"""
+    if not step.get('early'):
+        return make()
+    awaitable = make()
+    env.sess.stats['prepared_early'] += 1
+    await (time + step['early'])
+    return awaitable
+
+
 async def op_setflag(env, ctx, step):
+    awaitable = await prepared(env, step, lambda: env.objects['flags'][step['f']].set(
+        step.get('v', True)))
     # the shadow valuation follows the program's own actions, in the same turn as the call
     env.shadow['flags'][step['f']] = bool(step.get('v', True))
-    await env.objects['flags'][step['f']].set(step.get('v', True))
+    await awaitable
 
 
 async def op_settracked(env, ctx, step):
@@ -616,8 +629,9 @@ async def op_lock(env, ctx, step):
 
 async def op_put(env, ctx, step):
     stream = env.objects[step.get('kind', 'queues')][step['q']]
+    awaitable = await prepared(env, step, lambda: stream.put(step['item']))
     try:
-        await stream.put(step['item'])
+        await awaitable
     except StreamClosed:
         return 'closed'
     return 'ok'
@@ -656,7 +670,7 @@ async def op_iter(env, ctx, step):
 
 async def op_close(env, ctx, step):
     stream = env.objects[step.get('kind', 'queues')][step['q']]
-    await stream.close()
+    await (await prepared(env, step, lambda: stream.close()))
 
 
 async def op_borrow(env, ctx, step):
@@ -702,7 +716,7 @@ async def op_resource(env, ctx, step):
 
 async def op_transfer(env, ctx, step):
     pipe = env.objects['pipes'][step['p']]
-    await pipe.transfer(step['v'], step.get('limit'))
+    await (await prepared(env, step, lambda: pipe.transfer(step['v'], step.get('limit'))))
 
 
 async def op_scope(env, ctx, step):
